@@ -79,7 +79,12 @@ def c06_sessions(V, tier):
             cases.append(case)
     rnd = random.Random(C.seed() + 606)
     rnd.shuffle(cases)
-    cases = cases[:90 if tier == "quick" else 1200]
+    # histories touching several documents first (what one document's notification does to ANOTHER document's answers)
+    cases.sort(key=lambda c: -len({ev["f"] for ev in c["hist"]}))
+    multi = [c for c in cases if len({ev["f"] for ev in c["hist"]}) >= 2]
+    rest = [c for c in cases if len({ev["f"] for ev in c["hist"]}) < 2]
+    k = 150 if tier == "quick" else 1500
+    cases = multi[:k * 4 // 5] + rest[:k - min(len(multi), k * 4 // 5)]
     base = os.path.join(C.BUILD, "ws", "lsphist6-%d" % os.getpid())
     shutil.rmtree(base, ignore_errors=True)
 
@@ -136,7 +141,7 @@ def c06_sessions(V, tier):
         for f, v in hist:
             final[f] = v
         try:
-            long_lived = run_one(os.path.join(base, "L%d" % n), hist, final, warm=(n % 3 == 0), burst=(n % 3 == 1))
+            long_lived = run_one(os.path.join(base, "L%d" % n), hist, final, warm=(n % 4 in (0, 2)), burst=(n % 4 == 1))
             fresh = run_one(os.path.join(base, "F%d" % n), [(f, final[f]) for f in case["okOrder"] if f in final], final)
         except (lsp.ServerDied, lsp.Timeout) as e:
             return {"error": str(e)}
